@@ -305,6 +305,11 @@ m("C13-r7", "C13", "controller/src/controller.rs", "\t\t\t\t\tlet res = OwnerV3H
 m("C17-r7", "C17", "libwallet/src/api_impl/owner.rs", "\t\t\t\ttx::cancel_tx(\n\t\t\t\t\t&mut **w,\n\t\t\t\t\tkeychain_mask,\n\t\t\t\t\t&tx.parent_key_id,", "\t\t\t\tlet active = w.parent_key_id();\n\t\t\t\ttx::cancel_tx(\n\t\t\t\t\t&mut **w,\n\t\t\t\t\tkeychain_mask,\n\t\t\t\t\t&active,", "C17.R7")
 m("C17-r6", "C17", "libwallet/src/internal/tx.rs", "\t\tSome(tx.id),\n\t\tSome(&parent_key_id),\n\t)?;\n\tlet outputs = res.iter()", "\t\tSome(tx.id),\n\t\tNone,\n\t)?;\n\tlet outputs = res.iter()", "C17.R6")
 m("C10-h", "C10", "libwallet/src/slatepack/types.rs", "\t\tself.sender = meta.sender;\n\t\tself.encrypted_meta.recipients", "\t\tif self.sender.is_none() {\n\t\t\tself.sender = meta.sender;\n\t\t}\n\t\tself.encrypted_meta.recipients", "C10.R3")
+m("C18-n1", "C18", "libwallet/src/internal/updater.rs", "\t\t\t\t\t\t\t&& (output.status == OutputStatus::Unconfirmed\n\t\t\t\t\t\t\t\t|| output.status == OutputStatus::Reverted)\n", "\t\t\t\t\t\t\t&& output.status == OutputStatus::Unconfirmed\n", "C18.R4")
+m("C18-n2", "C18", "libwallet/src/api_impl/owner.rs", "\tupdate_outputs(wallet_inst.clone(), keychain_mask, true, true)?;\n\tlet tip = {", "\tupdate_outputs(wallet_inst.clone(), keychain_mask, true, false)?;\n\tlet tip = {", "C18.R9")
+m("C18-n3", "C18", "libwallet/src/api_impl/owner.rs", "\t\ttrue => w.acct_path_iter().map(|m| m.path).collect(),\n\t\tfalse => vec![w.parent_key_id()],", "\t\tfalse => w.acct_path_iter().map(|m| m.path).collect(),\n\t\ttrue => vec![w.parent_key_id()],", "C18.R9")
+m("C10-i", "C10", "libwallet/src/slatepack/armor.rs", "\tif error_code.iter().eq(new_check.iter()) {", "\tlet diff = error_code.iter().zip(new_check.iter()).fold(0u8, |acc, (a, b)| acc ^ (a ^ b));\n\tif error_code.len() == new_check.len() && diff == 0 {", "C10.R4")
+m("C07-n1", "C07", "libwallet/src/api_impl/foreign.rs", "\t\tif t.tx_type == TxLogEntryType::TxReceived || t.tx_type == TxLogEntryType::TxReverted {", "\t\tif t.tx_type == TxLogEntryType::TxReceived {", "C07.R3")
 m("C10-r6", "C10", "libwallet/src/address.rs", "key_path.path[key_path.depth as usize - 1] = ChildNumber::from(index);", "key_path.path[key_path.depth as usize] = ChildNumber::from(index);", "C10.R6")
 m("C19-r6", "C19", "libwallet/src/types.rs", "\t#[serde(with = \"option_duration_as_secs\", default)]\n\tpub reverted_after: Option<Duration>,\n}\n\nimpl ser::Writeable for TxLogEntry", "\t#[serde(with = \"option_duration_as_secs\")]\n\tpub reverted_after: Option<Duration>,\n}\n\nimpl ser::Writeable for TxLogEntry", "C19.R6")
 
